@@ -316,6 +316,30 @@ def andAll : List Term → Option Term
   | [] => none
   | c :: cs => some (cs.foldl (fun acc x => combine .and_ acc x) c)
 
+/-- which branch of `where()` (generic, or PostgreSQL's override on the ON CONFLICT path) a call takes -/
+inductive WherePath | skip | pgReject | pgDoUpdate | pgConflict | generic
+  deriving DecidableEq, Repr
+
+def wherePath (s : St) (c : Term) : WherePath :=
+  if c.isEmpty then .skip
+  else if s.r.fl.cls = .postgresql && s.r.fl.onConflict then
+    -- PostgreSQLQueryBuilder.where on the ON CONFLICT path
+    if s.r.fl.onConflictDoNothing then .pgReject
+    else if !s.r.onConflictFields.isEmpty && !s.r.onConflictDoUpdates.isEmpty then .pgDoUpdate
+    else if !s.r.onConflictFields.isEmpty then .pgConflict
+    else .pgReject
+  else .generic
+
+def whereApply (s : St) (c : Term) : WherePath → R
+  | .skip => pure s
+  | .pgReject => raise "QueryException"
+  | .pgDoUpdate => pure { s with r := { s.r with onConflictDoUpdateWheres := whereStep s.r.onConflictDoUpdateWheres c } }
+  | .pgConflict => pure { s with r := { s.r with onConflictWheres := whereStep s.r.onConflictWheres c } }
+  | .generic =>
+      pure { s with r := { s.r with
+        fl := { s.r.fl with foreignTable := s.r.fl.foreignTable || !validateTable s.r c }
+        wheres := whereStep s.r.wheres c } }
+
 def step (s : St) : Call → R
   | .from_ src sub =>
     if src.isSub && src.alias?.isNone then
@@ -363,20 +387,7 @@ def step (s : St) : Call → R
     pure { s with r := { s.r with
       fl := { s.r.fl with foreignTable := s.r.fl.foreignTable || !validateTable s.r c }
       prewheres := match s.r.prewheres with | none => some c | some x => some (combine .and_ x c) } }
-  | .where_ c =>
-    if c.isEmpty then pure s
-    else if s.r.fl.cls = .postgresql && s.r.fl.onConflict then
-      -- PostgreSQLQueryBuilder.where on the ON CONFLICT path
-      if s.r.fl.onConflictDoNothing then raise "QueryException"
-      else if !s.r.onConflictFields.isEmpty && !s.r.onConflictDoUpdates.isEmpty then
-        pure { s with r := { s.r with onConflictDoUpdateWheres := whereStep s.r.onConflictDoUpdateWheres c } }
-      else if !s.r.onConflictFields.isEmpty then
-        pure { s with r := { s.r with onConflictWheres := whereStep s.r.onConflictWheres c } }
-      else raise "QueryException"
-    else
-      pure { s with r := { s.r with
-        fl := { s.r.fl with foreignTable := s.r.fl.foreignTable || !validateTable s.r c }
-        wheres := whereStep s.r.wheres c } }
+  | .where_ c => whereApply s c (wherePath s c)
   | .having c =>
     if c.isEmpty then pure s else pure { s with r := { s.r with havings := whereStep s.r.havings c } }
   | .groupby args =>
